@@ -1047,3 +1047,37 @@ func BadFlagTupleHelperInverted(d *D, files map[string][]byte) error {
 	d.prev = &v
 	return nil
 }
+
+// ---- steps chained through one error variable --------------------------------------
+
+// GoodErrChain: `err := a(); if err == nil { err = b() }; …; return err`.
+func GoodErrChain(d *D, files map[string][]byte) error {
+	v := fresh(d)
+	err := fill(d, v, files)
+	if err == nil {
+		err = swap(d, v)
+	}
+	if err == nil {
+		err = dropPrev(d)
+	}
+	if err == nil {
+		d.prev = &v
+	}
+	return err
+}
+
+// BadErrChainUnguarded: the previous version is dropped whatever the swap returned.
+func BadErrChainUnguarded(d *D, files map[string][]byte) error {
+	v := fresh(d)
+	err := fill(d, v, files)
+	if err == nil {
+		err = swap(d, v)
+	}
+	if derr := dropPrev(d); err == nil {
+		err = derr
+	}
+	if err == nil {
+		d.prev = &v
+	}
+	return err
+}
